@@ -70,6 +70,12 @@ func (w *webhookExecutorEtag) adjustResponse(
 		if !cacheEntryExists {
 			return nil, fmt.Errorf("cannot find cached response for cache key: %s", cacheKey)
 		}
+		// The entry may have been replaced by a concurrent call for the same
+		// object since the headers were enriched. Only the body that was cached
+		// together with the ETag we sent answers this "not modified".
+		if sentETag := request.Header.Get(headerIfNoneMatch); cacheEntry.Etag != sentETag {
+			return nil, fmt.Errorf("cached response for cache key %s has ETag %q, request was sent with %q", cacheKey, cacheEntry.Etag, sentETag)
+		}
 		return cacheEntry.Response, nil
 	}
 	eTag := response.Header.Get(headerETag)
